@@ -181,6 +181,16 @@ inline bool build(const Spec& sp, NifFile& nif) {
 			ed2->name.get() = "LooseED2";
 			ed2->stringData.get() = "y";
 			hdr.AddBlock(std::move(ed2));
+			// a loose chain of three, deepest member first: each only becomes unreferenced once the block behind it is gone
+			{
+				uint32_t dataId = hdr.AddBlock(std::make_unique<NiTransformData>());
+				auto interp = std::make_unique<NiTransformInterpolator>();
+				interp->dataRef.index = dataId;
+				uint32_t interpId = hdr.AddBlock(std::move(interp));
+				auto ctl = std::make_unique<NiTransformController>();
+				ctl->interpolatorRef.index = interpId;
+				hdr.AddBlock(std::move(ctl));
+			}
 			break;
 		}
 		case 7: {
